@@ -1,3 +1,4 @@
+#![allow(unused_braces)]
 //! C09 (Argon2), C11 (fresh randomness), C12 (KDF), C16 (byte / serde
 //! encodings).
 
